@@ -5,6 +5,10 @@
       forked cosmos-sdk baseapp (read)           CheckTx runs the ante handler on the CHECK STATE, which keeps
                                                  the ante effects of every transaction admitted since the last
                                                  Commit (sequence bump, base fee, fee allowance use)  [mempool]
+                                                 Commit resets the check state to the committed state; the
+                                                 transactions still pending are then offered again with
+                                                 CheckTx(Recheck) (ctx.IsCheckTx and ctx.IsReCheckTx both true),
+                                                 before any new one                                   [b_recheck]
                                                  FinalizeBlock runs the block's transactions one after the other
                                                  on the running block state                          [trace]
                                                  runTx: "no block gas left to run tx" before anything else;
@@ -68,7 +72,16 @@ Record btx := { b_tx : tx;                      (* [t_sig_ok]: the signatures th
                 b_sigseq : list (acct * Z);     (* the sequence number each signer signed for *)
                 b_gas : gas_input;
                 b_used : Z;                     (* GasUsed reported for the execution in the block *)
-                b_forced : bool }.              (* put into the block without asking the local mempool *)
+                b_forced : bool;                (* put into the block without asking the local mempool *)
+                b_hold : bool;                  (* when admitted, it stays pending: the proposer leaves it out of
+                                                   this block (it is offered again, as a recheck, in a later step) *)
+                b_recheck : bool }.             (* it was admitted in an earlier step and is still pending: this is
+                                                   CheckTx(Recheck) after the commit in between.  The ante handler
+                                                   runs as for a new transaction (only the cryptographic signature
+                                                   check and ValidateBasic are skipped; the sequence comparison,
+                                                   the fee sufficiency check, the grant use and the base fee
+                                                   deduction on the fresh check state are not): the model treats
+                                                   both kinds alike *)
 
 Definition seq_match (s : state) (b : btx) : bool :=
   forallb (fun e => seqn s (fst e) =? snd e) (b_sigseq b).
@@ -118,7 +131,7 @@ Fixpoint trace (cfg : config) (s : state) (left : Z) (bs : list (btx * bool)) : 
 Definition end_state (s : state) (tr : list tstep) : state := fold_left (fun _ e => ts_post e) tr s.
 
 Definition in_block (bs : list btx) (adm : list bool) : list (btx * bool) :=
-  map (fun ba => (fst ba, snd ba || b_forced (fst ba))) (combine bs adm).
+  map (fun ba => (fst ba, snd ba && negb (b_hold (fst ba)) || b_forced (fst ba))) (combine bs adm).
 
 (* per offered transaction: RRejected when it is not in the block, else the block's result *)
 Fixpoint results (bs : list (btx * bool)) (tr : list tstep) : list result :=
